@@ -119,6 +119,49 @@ def run(ctx):
         violations += v3
         evals += e3
 
+    # (c') thread schedules: the library crates built with rayon on (`--features par`), the same programs plus wide
+    # Public / Const tables with aliased inputs, under several pool sizes and repeated fresh processes at 16 threads;
+    # every digest (incl. preprocessed columns and commitment) must equal the single-thread one
+    par_cov = {"processes": 0, "evaluations": 0}
+    rc, o = ctx["build_harness"]("par")
+    if rc != 0:
+        violations.append({"class": "harness-build", "what": "harness does not build with the library's `parallel` feature", "replay": {"log": o[-2000:]}, "no_input": True})
+    else:
+        parbin = os.path.join(ctx["harness_dir"], "target-par/debug/p3r-harness")
+        pools = [1, 2, 3, 4, 8, 16] + [16] * (4 if tier == "quick" else 30)
+        nwide, npar = (6, 40) if tier == "quick" else (24, 600)
+        pfiles = []
+        for i, t in enumerate(pools):
+            tag = f"par{i}"
+            cmd = [parbin, "determinism", "--seed", str(seed), "--programs", str(npar), "--wide", str(nwide), "--repeats", "2",
+                   "--corpus", corpus, "--out", out, "--tag", tag, "--verifier-circuit", "1" if i < 2 else "0"]
+            rc, o = ctx["sh"](cmd, timeout=7200, env={"RAYON_NUM_THREADS": str(t)})
+            if rc != 0:
+                violations.append({"class": "harness-crash", "what": f"determinism (parallel build, {t} threads) exited {rc}: {o[-300:]}", "replay": {}, "no_input": True})
+                continue
+            rep = json.load(open(f"{out}/determinism.{tag}.report.json"))
+            par_cov["processes"] += 1; par_cov["evaluations"] += rep["evaluations"]; evals += rep["evaluations"]
+            for v in rep["violations"]:
+                violations.append({"class": v["class"] + ":parallel", "what": f"{v['kind']} (rayon on, {t} threads): {v.get('first_difference')}", "replay": {**v["replay"], "rayon_threads": t}})
+            pfiles.append((t, {l.split()[0]: l for l in read_lines(f"{out}/determinism.{tag}")}))
+        reported = 0
+        for t, fl in pfiles[1:]:
+            for pid_, l in fl.items():
+                a = pfiles[0][1].get(pid_)
+                if a is not None and a != l and reported < 3 and not pid_.startswith("verifier-circuit"):
+                    reported += 1
+                    prog = None
+                    try:
+                        prog = next((pr for pr in json.load(open(f"{out}/determinism.p0.programs.json")) if pr["id"] == pid_), None)
+                    except Exception:
+                        pass
+                    violations.append({"class": "thread-pool-divergence",
+                                       "what": f"key generation with rayon on: pool size {pfiles[0][0]} and {t} disagree on {pid_}: {a.split()[1]} vs {l.split()[1]}",
+                                       "replay": {"id": pid_, "seed": seed, "wide": nwide, "rayon_threads": [pfiles[0][0], t],
+                                                  "cmd": f"RAYON_NUM_THREADS={t} harness/target-par/debug/p3r-harness determinism --seed {seed} --programs {npar} --wide {nwide}",
+                                                  "program": prog["program"] if prog else None}})
+        par_cov["pool_sizes"] = pools
+
     # (d) the order-sensitive sites on the real code ----------------------------------------------------
     orders = {"evaluations": 0, "observations": []}
     rc, o = ctx["sh"]([ctx["harness"], "c18-orders", "--repeats", "40" if tier == "quick" else "400", "--out", out, "--tag", "p0"], timeout=3600)
@@ -140,6 +183,8 @@ def run(ctx):
                    "10th program AIR degrees + preprocessed commitment; distinct = distinct program digests; the Lean driver evaluates "
                    "fusionInvariant (hypothesis of compile_order_independent) and the reversed-order model on every program",
            "samples": files[0][:3] if files else [], "input_distribution": hist,
+           "parallel_build": {**par_cov, "rule": "harness built with p3-circuit-prover/parallel (rayon on in the library crates): generated programs + wide Public/Const tables "
+                              "(64..1024 public inputs, aliased by connect) digested incl. commitment under each pool size, every digest equal to the single-thread one"},
            "hash_iteration_sites": {"scanned_files": sites.get("scanned_files"), "found": sites.get("found"), "inventory": sites.get("inventory"),
                                     "order_sensitive_sites": sites.get("order_sensitive_sites"), "oracle_error": sites.get("error")},
            "unmodelled_hash_iteration_sites": unknown,
@@ -177,7 +222,7 @@ CHECK = {
                  "P3R.Witness.C18Order.airLoop_for_configs", "P3R.Witness.C18Order.fusedPos_needs_distinct_outs",
                  "P3R.Witness.C18Order.find_compresses", "P3R.Witness.C18Order.find_roots_unchanged"],
     "run": run,
-    "trusted_base": ["process / thread schedules and hash seeds are exercised, not modelled (partial by nature)",
+    "trusted_base": ["process / thread schedules and hash seeds are exercised (rayon on and off, pool sizes 1..16, repeated fresh processes), not modelled (partial by nature)",
                      "the site inventory (design_notes/C18_sites.json) is hand-classified; bin/c18_sites.py (a name-driven scanner, no rustc) "
                      "re-derives the site set on every run and reports differences",
                      "the ordered models (Model/Order.lean) are tied to the code through the fixed-order models they are proved equal to "
